@@ -78,3 +78,46 @@ Qed.
 
 Lemma first_serials_nonzero n : Forall (fun s => s <> 0) (first_serials n).
 Proof. unfold first_serials. apply Forall_forall. intros s Hs. apply in_map_iff in Hs. destruct Hs as [k [<- _]]. apply spec_serial_nonzero. Qed.
+
+(* ---- any starting point of the counter ---- *)
+Lemma spec_serial_pred b : 1 <= b < two32 -> spec_serial (b - 1) = b.
+Proof. intros H. rewrite spec_serial_small by (unfold M32, two32 in *; lia). lia. Qed.
+
+(* the sequence does not repeat inside a window shorter than its period *)
+Lemma spec_serial_inj_window a d : d < M32 -> spec_serial a = spec_serial (a + d) -> d = 0.
+Proof.
+  intros Hd H. unfold spec_serial in H. fold M32 in H.
+  assert (HM : M32 <> 0) by (unfold M32, two32; lia).
+  pose proof (N.mod_lt a M32 HM) as Hr.
+  assert (E : (a + d) mod M32 = (a mod M32 + d) mod M32).
+  { rewrite N.add_mod by exact HM. rewrite (N.mod_small d M32) by exact Hd. reflexivity. }
+  rewrite E in H. set (r := a mod M32) in *.
+  destruct (N.lt_ge_cases (r + d) M32) as [Hlt|Hge].
+  - rewrite N.mod_small in H by exact Hlt. lia.
+  - assert ((r + d) mod M32 = r + d - M32) by (symmetry; apply (N.mod_unique _ _ 1); lia). lia.
+Qed.
+
+Definition serials_from (k0 : N) (n : nat) : list N := map (fun k => spec_serial (k0 + N.of_nat k)) (seq 0 n).
+
+Lemma serials_from_snoc k0 n : serials_from k0 (S n) = serials_from k0 n ++ [spec_serial (k0 + N.of_nat n)].
+Proof. unfold serials_from. rewrite seq_S, map_app. reflexivity. Qed.
+
+Lemma length_serials_from k0 n : length (serials_from k0 n) = n.
+Proof. unfold serials_from. rewrite map_length, seq_length. reflexivity. Qed.
+
+Lemma serials_from_nonzero k0 n : Forall (fun s => s <> 0) (serials_from k0 n).
+Proof. unfold serials_from. apply Forall_forall. intros s Hs. apply in_map_iff in Hs. destruct Hs as [k [<- _]]. apply spec_serial_nonzero. Qed.
+
+Lemma serials_from_in k0 n s : In s (serials_from k0 n) -> exists k, (k < n)%nat /\ s = spec_serial (k0 + N.of_nat k).
+Proof. unfold serials_from. intros H. apply in_map_iff in H. destruct H as [k [<- Hk]]. apply in_seq in Hk. exists k. split; [lia|reflexivity]. Qed.
+
+Lemma serials_from_nodup k0 n : N.of_nat n <= M32 -> NoDup (serials_from k0 n).
+Proof.
+  intros Hn. unfold serials_from. apply NoDup_map_inj_in; [|apply seq_NoDup].
+  intros a b Ha Hb E. apply in_seq in Ha. apply in_seq in Hb.
+  destruct (Nat.le_ge_cases a b) as [Hab|Hab].
+  - replace (k0 + N.of_nat b) with ((k0 + N.of_nat a) + N.of_nat (b - a)) in E by lia.
+    apply spec_serial_inj_window in E; lia.
+  - symmetry in E. replace (k0 + N.of_nat a) with ((k0 + N.of_nat b) + N.of_nat (a - b)) in E by lia.
+    apply spec_serial_inj_window in E; lia.
+Qed.
